@@ -461,3 +461,125 @@ def run_d(prog, res):
             stat.discharged += 1
             stat.sample({"row": name, "type": trow["_name"], "index": idx, "field": "%s.%s" % (member, f[0])})
     return stat
+
+
+# ------------------------------------------------------------------ C01.c1 data-dependent stack copies are guarded
+
+def _dominators_from(fn, root):
+    """dominator sets of the blocks reachable from `root`, with `root` as entry"""
+    seen = []
+    st = [root]
+    mark = set()
+    while st:
+        b = st.pop()
+        if b in mark:
+            continue
+        mark.add(b)
+        seen.append(b)
+        for s in fn.blocks[b].succs:
+            if s is not None and s >= 0 and s != fn.exit:
+                st.append(s)
+    dom = {b: set(mark) for b in mark}
+    dom[root] = {root}
+    changed = True
+    while changed:
+        changed = False
+        for b in seen:
+            if b == root:
+                continue
+            preds = [p for p in fn.blocks[b].preds if p in mark]
+            if not preds:
+                continue
+            new = set.intersection(*(dom[p] for p in preds)) | {b}
+            if new != dom[b]:
+                dom[b] = new
+                changed = True
+    return dom
+
+
+def run_c1(prog, res):
+    """VM: a loop that moves `top` while storing into the stack (a data-dependent number of
+    pushes: apply's argument copy, the argument copy at procedure entry) is preceded, on every path
+    from the instruction dispatch, by a capacity check of `top` against the stack's length"""
+    from cfg import block_reach
+    stat = res.stat("C01.c1", "VM loops that push a data-dependent number of values are dominated (from the dispatch) by a "
+                    "stack-capacity check", floor=2)
+    fn = prog.func("sexp_apply")
+    topv = [i for i, v in enumerate(fn.vars) if v["n"] == "top" and v["k"] == "l"][0]
+    stackv = [i for i, v in enumerate(fn.vars) if v["n"] == "stack" and v["k"] == "l"][0]
+    sw = None
+    for b in fn.blocks.values():
+        if b.term == "SwitchStmt":
+            n = sum(1 for s in b.succs if s is not None and s >= 0 and fn.blocks[s].lk == "case")
+            if sw is None or n > sw[1]:
+                sw = (b, n)
+    sw = sw[0]
+    caps = set()
+    for b in fn.blocks.values():
+        if b.cond is not None and topv in fn.refs_in(b.cond):
+            t = fn.txt(b.cond)
+            if "stack.length" in t and any(fn.nodes[x]["k"] == "bin" and fn.nodes[x]["o"] in (">=", ">", "<", "<=")
+                                           for x in fn.subtree(b.cond)):
+                caps.add(b.id)
+    if not caps:
+        raise AnalysisBroken("anchor vanished: no stack-capacity check (sexp_ensure_stack) in sexp_apply")
+    # blocks that both move top and store into stack[..top..]
+    moves, stores = set(), set()
+    for b in fn.blocks.values():
+        for e in b.elems:
+            nd = fn.nodes[e]
+            if nd["k"] == "un" and nd["o"] in ("pre++", "post++", "pre--", "post--"):
+                x = fn.strip(nd["c"][0])
+                if fn.nodes[x]["k"] == "ref" and fn.nodes[x].get("d") == topv:
+                    moves.add(b.id)
+            if nd["k"] == "bin" and nd["o"] == "=":
+                l = fn.strip(nd["c"][0])
+                if fn.nodes[l]["k"] == "idx":
+                    base = fn.strip(fn.nodes[l]["c"][0])
+                    if fn.nodes[base]["k"] == "ref" and fn.nodes[base].get("d") == stackv and \
+                            topv in fn.refs_in(fn.nodes[l]["c"][1]):
+                        stores.add(b.id)
+    # inner loops: natural loops of for/while/do statements (header dominates the body)
+    from cfg import dominators
+    dom_all = dominators(fn)
+    loops = []
+    heads = {}
+    for t in fn.blocks.values():
+        for h in t.succs:
+            if h is not None and h >= 0 and h in dom_all.get(t.id, ()):
+                heads.setdefault(h, []).append(t.id)        # back edge t -> h
+    for h, latches in heads.items():
+        body = {h}
+        st = list(latches)
+        while st:
+            x = st.pop()
+            if x in body:
+                continue
+            body.add(x)
+            st.extend(fn.blocks[x].preds)
+        if len(body) > 60:
+            continue        # the interpreter's own dispatch loop
+        if (body & moves) and (body & stores):
+            loops.append(body)
+    dom_sw = _dominators_from(fn, sw.id)
+    dom_en = _dominators_from(fn, fn.entry)
+    for scc in loops:
+        stat.sites += 1
+        stat.obligations += 1
+        head = min(scc, key=lambda x: -x)
+        line = min(fn.blocks[x].line or 10**9 for x in scc)
+        if all(x in dom_sw for x in scc):
+            ok = any(all(c in dom_sw[x] for x in scc) for c in caps)
+        else:
+            # before the dispatch loop (argument copy at procedure entry)
+            ok = any(all(c in dom_en.get(x, ()) for x in scc) for c in caps)
+        if ok:
+            stat.discharged += 1
+            stat.sample({"loop_at": "vm.c:%d" % line, "verdict": "capacity check dominates the loop"})
+        else:
+            res.add(Finding("C01", "C01.c1.unchecked-stack-copy", "sexp_apply", "loop moving top",
+                            "vm.c:%d" % line, "a VM loop stores into stack[...top...] while moving `top` a data-dependent "
+                            "number of times, and no check of `top` against the stack's length dominates it from the "
+                            "instruction dispatch: a long argument list writes past the end of the stack object",
+                            unit="vm.c"))
+    return stat
